@@ -31,17 +31,23 @@ func sortNaturalFilter(array []any, key any) any {
 			if rv.Kind() != reflect.Map {
 				return ""
 			}
-			ev := rv.MapIndex(reflect.ValueOf(key))
-			if ev.CanInterface() {
+			kv := reflect.ValueOf(key)
+			if !kv.Type().AssignableTo(rv.Type().Key()) {
+				return ""
+			}
+			ev := rv.MapIndex(kv)
+			if ev.IsValid() && ev.CanInterface() {
 				if s, ok := ev.Interface().(string); ok {
 					return strings.ToLower(s)
 				}
 			}
 			return ""
 		}})
-	case reflect.TypeOf(array[0]).Kind() == reflect.String:
+	case array[0] != nil && reflect.TypeOf(array[0]).Kind() == reflect.String:
 		sort.Sort(keySortable{result, func(s any) string {
-			return strings.ToUpper(s.(string))
+			// elements that are not strings sort first
+			str, _ := s.(string)
+			return strings.ToUpper(str)
 		}})
 	}
 	return result
